@@ -24,7 +24,9 @@ RULE = (
     'expressions in typed and untyped modifications, zero and false results included. Round 8: units assigned to '
     'unit-less nodes (% converts, cm is refused); !constant below a modification; exact comparison of unconverted '
     'float literals; units of another dimension written with the same symbols; integer arrays; the empty string; '
-    'a refusal has to come from parse(), not from data(). Distinct = distinct rendered text.'
+    'a refusal has to come from parse(), not from data(). Round 9: strings (the empty one included) assigned by '
+    'reference; values returned by registered functions, False and 0 included (strategy function_value). Distinct '
+    '= distinct rendered text.'
 )
 ASSUMPTIONS = [
     "integer nodes only receive values whose conversion into the definition unit is an exact integer",
